@@ -1,5 +1,6 @@
 from __future__ import annotations
 
+import ast
 import hashlib
 import logging
 import os
@@ -2026,6 +2027,76 @@ class FortranFile:
         return None
 
 
+def eval_pp_expr(expr: str):
+    """Evaluate a preprocessor condition made of literals, comparisons,
+    arithmetic and boolean operators, without executing any code
+
+    Raises
+    ------
+    ValueError
+        If the expression contains anything else (names, calls, attributes, ...)
+    """
+    bin_ops = {
+        ast.Add: lambda a, b: a + b,
+        ast.Sub: lambda a, b: a - b,
+        ast.Mult: lambda a, b: a * b,
+        ast.Div: lambda a, b: a / b,
+        ast.FloorDiv: lambda a, b: a // b,
+        ast.Mod: lambda a, b: a % b,
+        ast.LShift: lambda a, b: a << b,
+        ast.RShift: lambda a, b: a >> b,
+        ast.BitAnd: lambda a, b: a & b,
+        ast.BitOr: lambda a, b: a | b,
+        ast.BitXor: lambda a, b: a ^ b,
+    }
+    cmp_ops = {
+        ast.Eq: lambda a, b: a == b,
+        ast.NotEq: lambda a, b: a != b,
+        ast.Lt: lambda a, b: a < b,
+        ast.LtE: lambda a, b: a <= b,
+        ast.Gt: lambda a, b: a > b,
+        ast.GtE: lambda a, b: a >= b,
+    }
+
+    def ev(node):
+        if isinstance(node, ast.Expression):
+            return ev(node.body)
+        if isinstance(node, ast.Constant) and isinstance(
+            node.value, (bool, int, float)
+        ):
+            return node.value
+        if isinstance(node, ast.BoolOp):
+            res = isinstance(node.op, ast.And)
+            for value in node.values:
+                res = ev(value)
+                if bool(res) != isinstance(node.op, ast.And):
+                    break
+            return res
+        if isinstance(node, ast.UnaryOp):
+            val = ev(node.operand)
+            if isinstance(node.op, ast.Not):
+                return not val
+            if isinstance(node.op, ast.USub):
+                return -val
+            if isinstance(node.op, ast.UAdd):
+                return +val
+            if isinstance(node.op, ast.Invert):
+                return ~val
+        if isinstance(node, ast.BinOp) and type(node.op) in bin_ops:
+            return bin_ops[type(node.op)](ev(node.left), ev(node.right))
+        if isinstance(node, ast.Compare):
+            left = ev(node.left)
+            for op, comp in zip(node.ops, node.comparators):
+                right = ev(comp)
+                if type(op) not in cmp_ops or not cmp_ops[type(op)](left, right):
+                    return False
+                left = right
+            return True
+        raise ValueError("unsupported preprocessor expression")
+
+    return ev(ast.parse(expr.strip(), mode="eval"))
+
+
 def preprocess_file(
     contents_split: list,
     file_path: str = None,
@@ -2080,7 +2151,7 @@ def preprocess_file(
         out_line = replace_defined(text)
         out_line = replace_vars(out_line)
         try:
-            line_res = eval(replace_ops(out_line))
+            line_res = eval_pp_expr(replace_ops(out_line))
         except:
             return False
         else:
